@@ -115,6 +115,10 @@ fn gen_text(r: &mut Rng, i: usize) -> Value {
     for j in 0..nc {
         let name = if r.chance(1, 4) { format!("c{j}") } else { String::new() };
         if !bools.is_empty() && r.chance(1, 3) { cs.push(Constraint::new_logic_assertion(G::logic(r, &bools, 2), name)); continue; }
+        // a block divided by a constant against a constant: the bound requirement has to travel through the division
+        if r.chance(1, 6) { let blk = match r.below(3) { 0 => Exp::Abs(b(G::affine(r, &ints))), 1 => Exp::Max(vec![G::affine(r, &ints), G::affine(r, &ints)]), _ => Exp::Min(vec![G::affine(r, &ints), G::affine(r, &ints)]) };
+            let dv = *r.pick(&[2.0, 3.0, -2.0, 4.0]); let lhs = if r.chance(1, 2) { bin(BinOp::Div, blk, num(dv)) } else { Exp::Max(vec![bin(BinOp::Div, blk, num(dv)), G::affine(r, &ints)]) };
+            cs.push(Constraint::new(lhs, if r.chance(1, 2) { Comparison::LessOrEqual } else { Comparison::GreaterOrEqual }, num(*r.pick(&[1.0, 2.0, 0.0, -1.0])), name)); continue; }
         let cmp = match r.below(5) { 0 | 1 => Comparison::LessOrEqual, 2 | 3 => Comparison::GreaterOrEqual, _ => Comparison::Equal };
         let rhs = if r.chance(2, 3) { num(*r.pick(&[0.0, 1.0, 2.0, 3.0, -1.0, 4.0])) } else { G::affine(r, &ints) };
         cs.push(Constraint::new(G::arith(r, &ints, &bools, 2), cmp, rhs, name));
